@@ -38,7 +38,9 @@ func init() {
 		Technique: "complete enumeration of the finite type vocabulary (all pairs, all edit-distance-1 near misses) + bounded exhaustive enumeration of literal texts compared with the scanner's classifier",
 		Rule: "all 18x18 SchemaType pairs; IsValidType on every documented name and every edit-distance-1 variant over [a-zA-Z _0]; every token string of <= N tokens over a 15-token literal alphabet: GuessSchemaType vs the schema scanner's classification (AST type of the accepted one-literal schema and json.Guess); " +
 			"non-trivial = vocabulary pairs + literal texts accepted by the schema scanner as a scalar",
-		Bounds: func(tier string) map[string]any { return map[string]any{"literal_max_tokens": c20N(tier), "repeat_per_literal": 24} },
+		Bounds: func(tier string) map[string]any {
+			return map[string]any{"literal_max_tokens": c20N(tier), "repeat_per_literal": 24}
+		},
 		Run:    c20Run,
 		Replay: c20Replay,
 		Assumptions: []string{
